@@ -314,7 +314,7 @@ CHECK_DEADLOCK FALSE
 @prop("C02")
 def c02(ctx):
     quick = ctx.tier == "quick"
-    plan = [("D1", 2), ("D2", 2), ("D3", 4)] if quick else [("D1", 2), ("D2", 2), ("D3", 4), ("D4", 8)]
+    plan = [("D1", 2), ("D2", 2), ("D3", 4)] if quick else [("D1", 2), ("D2", 2), ("D3", 4), ("D4", 8), ("D5", 8)]
     jobs = []
     files = []
     for dom, n in plan:
@@ -725,11 +725,13 @@ def c07(ctx):
     args = ["walk", "-in", f]
     ctx.absorb(ctx.vh_run(args, timeout=3000), args, label="walk/plainonce")
     if not quick:
-        f = walk_cases(ctx, "plain3", 3, "plain3", sample=ctx.seed % 23)
-        args = ["walk", "-in", f]
-        ctx.absorb(ctx.vh_run(args, timeout=3000), args, label="walk/plain3")
+        for k in range(6):      # six of the 23 hashed classes of depth-3 selectors
+            f = walk_cases(ctx, "plain3", 3, "plain3-%d" % k, sample=(ctx.seed + 4 * k) % 23)
+            args = ["walk", "-in", f]
+            ctx.absorb(ctx.vh_run(args, timeout=3000), args, label="walk/plain3-%d" % k)
+            os.remove(f)
     # random cases beyond the bounds (graphs of up to 4 blocks, selectors up to AST depth 5, every clause kind)
-    walk_random_stage(ctx, 2500 if quick else 8000, 1 if quick else 8, "c07")
+    walk_random_stage(ctx, 2500 if quick else 10000, 1 if quick else 24, "c07")
     return ctx.finish(
         "model_checking",
         rule="cases = every selector of the language that compiles up to AST depth 2 (all clause kinds: matcher, subset "
@@ -752,10 +754,12 @@ def c14(ctx):
     f = walk_cases(ctx, "plain", 2, "plain")
     args = ["walk", "-in", f, "-paths"]
     ctx.absorb(ctx.vh_run(args, timeout=3000), args, label="walk/paths")
-    if ctx.tier != "quick":   # the paths of the depth-3 selector sample as well
-        f = walk_cases(ctx, "plain3", 3, "plain3", sample=ctx.seed % 23)
-        args = ["walk", "-in", f, "-paths"]
-        ctx.absorb(ctx.vh_run(args, timeout=3000), args, label="walk/paths3")
+    if ctx.tier != "quick":   # the paths of four hashed classes of depth-3 selectors as well
+        for k in range(4):
+            f = walk_cases(ctx, "plain3", 3, "plain3-%d" % k, sample=(ctx.seed + 5 * k + 1) % 23)
+            args = ["walk", "-in", f, "-paths"]
+            ctx.absorb(ctx.vh_run(args, timeout=3000), args, label="walk/paths3-%d" % k)
+            os.remove(f)
     pf = os.path.join(ctx.scratch, "paths.ndjson")
     ctx.tlc("PathsGen", tr_cfg("plain", 1).replace("SPECIFICATION Spec", "SPECIFICATION Spec2")
             .replace(TR_INV + " Emit", "RoundTripIffClean ResolveIffExists Emit2"), capture=pf, workers=4)
@@ -778,11 +782,13 @@ def c15(ctx):
     f = walk_cases(ctx, "ctl", 1, "ctl")
     args = ["walk", "-in", f, "-controls"]
     ctx.absorb(ctx.vh_run(args, timeout=3000), args, label="walk/controls")
-    walk_random_stage(ctx, 2500 if ctx.tier == "quick" else 8000, 1 if ctx.tier == "quick" else 8, "c15")
-    if ctx.tier != "quick":   # every control over a hashed sample (1/41, by seed) of ALL selectors of AST depth 2
-        f = walk_cases(ctx, "ctl2", 2, "ctl2", sample=ctx.seed % 41)
-        args = ["walk", "-in", f, "-controls"]
-        ctx.absorb(ctx.vh_run(args, timeout=5000), args, label="walk/controls2")
+    walk_random_stage(ctx, 2500 if ctx.tier == "quick" else 10000, 1 if ctx.tier == "quick" else 24, "c15")
+    if ctx.tier != "quick":   # every control over ten of the 41 hashed classes of ALL selectors of AST depth 2
+        for k in range(10):
+            f = walk_cases(ctx, "ctl2", 2, "ctl2-%d" % k, sample=(ctx.seed + 4 * k) % 41)
+            args = ["walk", "-in", f, "-controls"]
+            ctx.absorb(ctx.vh_run(args, timeout=5000), args, label="walk/controls2-%d" % k)
+            os.remove(f)
     return ctx.finish(
         "model_checking",
         rule="cases = 7 graphs x 6-7 selectors (recursive explore-all with and without limits and stop-at, unions, fields) x "
@@ -813,15 +819,16 @@ CHECK_DEADLOCK FALSE
 
 @prop("C16")
 def c16(ctx):
-    modes = ("focus", "focus2", "walk") if ctx.tier == "quick" else ("focus", "focus2all", "walk", "walk2")
-    for tmode in modes:
-        f = os.path.join(ctx.scratch, "tf-%s.ndjson" % tmode)
-        ctx.tlc("TransformGen", tf_cfg(tmode, ctx.seed % 13), capture=f, workers=4, timeout=2400)
+    modes = [("focus", 0), ("focus2", 0), ("walk", 0)] if ctx.tier == "quick" else \
+        [("focus", 0), ("focus2all", 0), ("walk", 0)] + [("walk2", k) for k in range(13)]     # ALL depth-2 selectors
+    for tmode, sample in modes:
+        f = os.path.join(ctx.scratch, "tf-%s-%d.ndjson" % (tmode, sample))
+        ctx.tlc("TransformGen", tf_cfg(tmode, sample), capture=f, workers=4, timeout=2400)
         args = ["transform", "-in", f]
         ctx.absorb(ctx.vh_run(args, timeout=3000), args, label="transform/" + tmode)
     # walking transforms over random graphs and selectors beyond the bounds (the cases of vh walk-gen, evaluated by TLC)
     cases = os.path.join(ctx.scratch, "wg-tf.ndjson")
-    ctx.vh_run(["walk-gen", "-n", "2500" if ctx.tier == "quick" else "20000", "-seed", str(ctx.seed * 1000 + 99), "-out", cases])
+    ctx.vh_run(["walk-gen", "-n", "2500" if ctx.tier == "quick" else "60000", "-seed", str(ctx.seed * 1000 + 99), "-out", cases])
     f = os.path.join(ctx.scratch, "tf-walkfile.ndjson")
     ctx.tlc("TransformGen", tf_cfg("walkfile"), capture=f, workers=4, trace_file=cases, timeout=2400)
     args = ["transform", "-in", f]
@@ -843,26 +850,27 @@ def c16(ctx):
 
 
 # --------------------------------------------------------------------------- DAG-JSON
-def dj_cfg(shard, nshards):
+def dj_cfg(shard, nshards, deep=False):
     return """SPECIFICATION Spec
 CONSTANTS
   Shard = %d
   NShards = %d
+  Deep = %s
 INVARIANTS RoundTripIffNotReserved OrderIndependent Emit
 CHECK_DEADLOCK FALSE
-""" % (shard, nshards)
+""" % (shard, nshards, "TRUE" if deep else "FALSE")
 
 
 @prop("C04")
 def c04(ctx):
     quick = ctx.tier == "quick"
-    nsh = 8
+    nsh = 8 if quick else 16
     jobs, files = [], []
     for sh in range(nsh):
         f = os.path.join(ctx.scratch, "dj-%d.ndjson" % sh)
         files.append(f)
-        jobs.append(dict(module="DagJsonEnc", cfg=dj_cfg(sh, nsh), capture=f, workers=1, heap="3g", timeout=2400))
-    ctx.tlc_parallel(jobs, max_procs=8)
+        jobs.append(dict(module="DagJsonEnc", cfg=dj_cfg(sh, nsh, deep=not quick), capture=f, workers=1, heap="3g", timeout=2400))
+    ctx.tlc_parallel(jobs, max_procs=nsh)
     allf = os.path.join(ctx.scratch, "dj-all.ndjson")
     with open(allf, "w") as out:
         for f in files:
@@ -952,7 +960,7 @@ def c08(ctx):
     ctx.absorb(ctx.vh_run(args, timeout=3000), args, label="schema/conforming-dsl")
     # random type systems beyond the catalogue (a seeded sample of the inhabitants of each), both ways of building them
     quick = ctx.tier == "quick"
-    fr = random_schema_cases(ctx, "conforming", 60 if quick else 400, 3, "rconf")
+    fr = random_schema_cases(ctx, "conforming", 60 if quick else 1500, 3 if quick else 2, "rconf")
     for extra, label in (([], "schema/random-types"), (["-dsl"], "schema/random-types-dsl")):
         args = ["schema", "-in", fr, "-roundtrip"] + extra
         ctx.absorb(ctx.vh_run(args, timeout=3000), args, label=label)
@@ -1093,8 +1101,8 @@ def c19(ctx):
     quick = ctx.tier == "quick"
     # (1) purity: every history of bind calls, each in a fresh process (the state in question is process-global)
     f = os.path.join(ctx.scratch, "bind.ndjson")
-    ctx.tlc("BindGen", BD_CFG % 3, capture=f, workers=8, timeout=2400)
-    args = ["bindhist", "-in", f, "-every", "4" if quick else "1"]
+    ctx.tlc("BindGen", BD_CFG % (3 if quick else 4), capture=f, workers=8, timeout=2400)
+    args = ["bindhist", "-in", f, "-every", "4" if quick else "3"]
     ctx.absorb(ctx.vh_run(args, timeout=3000), args, label="bind/histories")
     # (2) faithfulness: every inhabitant of the library's types
     fconf = schema_cases(ctx, "conforming", 1, "conf", wide=True)
